@@ -13,6 +13,9 @@ SPEC = {
         {"name": "app", "cmd": "pool",
          "args": {"quick": ["-mode", "app", "-cases", "60", "-blocks", "36"], "thorough": ["-mode", "app", "-cases", "1500", "-blocks", "48"]},
          "search_args": ["-mode", "app", "-cases", "600", "-blocks", "40"]},
+        {"name": "evidence", "cmd": "pool",
+         "args": {"quick": ["-mode", "evidence", "-cases", "800"], "thorough": ["-mode", "evidence", "-cases", "20000"]},
+         "search_args": ["-mode", "evidence", "-cases", "20000"]},
     ],
     "trusted_base": [
         "Coq 8.16.1 kernel (coqc; coqchk in the thorough tier); no native_compute",
@@ -21,6 +24,8 @@ SPEC = {
         "harness/cmd/pool -mode verify (signs commitments with node keys and runs commitment.VerifyExecutorCommitment -> AddVerifiedExecutorCommitment -> ProcessCommitments as roothash/transactions.go does)",
         "abstracted inside the model of VerifyExecutorCommitment (Roothash/Verify.v): the signature check, message hashing / ValidateBasic of messages, RAK attestation and the message validator are boolean inputs measured on the real commitment by the harness (non-TEE runtime, no messages, nil validator in the harness); hashes are opaque numbers",
         "harness/cmd/pool -mode app + harness/internal/muxdrv (drives the real roothash application behind the real ABCI multiplexer with signed ExecutorCommit transactions; reads runtime state, round-timeout index and events)",
+        "harness/cmd/pool -mode evidence (signed executor-commitment / proposal pairs through roothash.Evidence.ValidateBasic; error strings mapped to the model's reasons) and the evidence transactions of the app stream (submitEvidence through the mux; evidence-hash store read back from state)",
+        "abstracted in Roothash/Evidence.v: signatures are booleans measured on the real objects; Evidence.Hash()/round is an opaque store key; slashing is reduced to 'the accused key is a registered node'",
         "abstracted in Roothash/App.v: one runtime; block hashes and the state root of a commitment header are tables measured on the implementation; the elected committee is an input of the block in which it changes; liveness statistics, slashing, runtime messages, round results are not modelled; the round-timeout index is identified with NextTimeout (the harness checks they agree after every block)",
     ],
     "assumptions": [
